@@ -312,6 +312,51 @@ def plan_C10(seed, run, engine, tier="quick"):
     return _mk("C10", seed, run, engine, [ds], ops, rng)
 
 
+def make_aux_plan(check, seed, run, engine, tier="quick"):
+    """Estimator-level histories for checks whose main workload is solver level."""
+    rng = G.rng_for(seed, check, run)
+    if check == "C03":
+        # iterative reweighting never increases the non-convex objective it majorises
+        args, ds = gen_gle(rng, "IterativeReweightedL1")
+        args["knobs"]["tol"] = float(G.sig3((args["family"].get("alpha_max_rm") or 1.0) * 1e-8, 3)) \
+            if False else args["knobs"]["tol"]
+        ops = [dict(op="new", id="e0", cls="IterativeReweightedL1", args=args),
+               dict(op="fit", id="e0", data=0, container="F", judge=True)]
+        return _mk(check, seed, run, engine, [ds], ops, rng)
+    if check == "C04":
+        cls = choice(rng, ["Lasso", "WeightedLasso", "ElasticNet", "MCPRegression", "GroupLasso", "LinearSVC"])
+        args, ds = _new_model(rng, cls, ample=False)
+        if "positive" in args:
+            args["positive"] = True
+        args["max_iter"] = int(choice(rng, [1, 2, 3]))
+        args["max_epochs"] = int(choice(rng, [6, 7, 8, 13, 14, 15, 20]))
+        ops = [dict(op="new", id="e0", cls=cls, args=args),
+               dict(op="fit", id="e0", data=0, container=choice(rng, ["F", "csc"]), optimum=False,
+                    labels=_labels(rng, ds["kind"]))]
+        if rng.random() < 0.5 and "warm_start" in args:
+            args["warm_start"] = True
+            ops.append(dict(op="fit", id="e0", data=0, container="F", optimum=False,
+                            labels=ops[-1]["labels"]))
+        return _mk(check, seed, run, engine, [ds], ops, rng)
+    # C17 (n_iter_ is the number of iterations performed) and C05 (warm_start refits after
+    # set_params): the C11 histories, warm start forced for C05
+    plan = plan_C11(seed, run, engine, tier)
+    plan["check"] = check
+    if check == "C05":
+        new = plan["ops"][0]
+        if "warm_start" in new["args"]:
+            new["args"]["warm_start"] = True
+        elif "knobs" in new["args"]:
+            new["args"]["knobs"]["warm_start"] = True
+        if len(plan["ops"]) == 2 and "alpha" in new["args"]:
+            a = new["args"]["alpha"]
+            plan["ops"].append(dict(op="set_params", id="e0",
+                                    params=dict(alpha=float(G.sig3(a * choice(rng, [0.3, 3.0]), 6)))))
+            plan["ops"].append(dict(op="fit", id="e0", data=0, container=plan["ops"][1]["container"],
+                                    labels=plan["ops"][1].get("labels")))
+    return plan
+
+
 PLANNERS = {"C11": plan_C11, "C18": plan_C18, "C10": plan_C10}
 
 
